@@ -80,6 +80,7 @@ type Ctx struct {
 	Batch   int
 	NBatch  int
 	Only    string // when set, only this case id is executed
+	After   string // when set, cases up to and including this id are skipped (resume after a crash)
 	Scratch string // private scratch directory of this child
 	Slow    int    // budget multiplier for in-case watchdogs (confirmation reruns)
 	OutPath string
@@ -137,6 +138,12 @@ func (c *Ctx) Rand(stream string, idx int) *Rand {
 func (c *Ctx) Cases(stream string, n int, f func(i int, r *Rand)) {
 	for i := 0; i < n; i++ {
 		id := stream + "#" + strconv.Itoa(i)
+		if c.After != "" {
+			if i%c.NBatch == c.Batch && c.After == id {
+				c.After = ""
+			}
+			continue
+		}
 		if c.Only != "" {
 			if c.Only != id {
 				continue
